@@ -182,6 +182,8 @@ class World:
 
     def apply(self, op):
         """Apply one op.  Returns False if the op is not enabled in this state."""
+        if self.dead:
+            return False  # pams raised earlier on this history: the state is broken, nothing is applied to it
         m = self.m
         k = op[0]
         follow = False
@@ -491,7 +493,12 @@ def _expand(arg):
     for hist in chunk:
         # the state itself was reached (and checked) before: rebuild it once, snapshot it, and
         # restore the snapshot for every outgoing operation
-        base = build(spec, hist)
+        try:
+            base = build(spec, hist)
+        except Violation as v:
+            # should not happen (the state was checked when it was first reached); report it rather than crash
+            viol.append((v.monitor, v.msg, hist))
+            continue
         if base is None or base.dead:
             raise common.HarnessError("frontier state %r cannot be rebuilt" % (hist,))
         base.wit = Counter()
@@ -547,8 +554,14 @@ def search(mon_factory, mode, ops, seedname, depth, seed=0, canonical=True, time
     except Violation as v:
         res["violations"].append((v.monitor, v.msg, ()))
         return res
-    if w0 is None or w0.dead:
+    if w0 is None:
         raise common.HarnessError("seed book %s cannot be built" % seedname)
+    if w0.dead:
+        # pams raised on a valid operation of the prelude and this check does not own that exception
+        # (the owning check reports it): the seed book is skipped and counted
+        res["pruned_exceptions"] += 1
+        res["seed_unbuildable"] = True
+        return res
     res["witness"].merge(w0.wit)
     seen = {common.digest(w0.canon()) if canonical else ()}
     frontier = [()]
